@@ -56,6 +56,16 @@ def pipeline_candidates(scn):
             c["frontends"] = fes
             c["abandon"] = [a for a in c.get("abandon", []) if a["task"] in fes]
             c["reruns"] = [a for a in c.get("reruns", []) if a in fes]
+            for k in ("alt_on", "twin_on"):
+                if k in c:
+                    c[k] = [f for f in c[k] if f in fes]
+            yield c
+    for k in ("twin_on", "alt_on"):
+        if s.get(k):
+            c = copy.deepcopy(s)
+            c[k] = []
+            if k == "alt_on":
+                c.pop("alt_config", None)
             yield c
     # contexts
     ctxs = s["config"]["contexts"]
